@@ -14,13 +14,13 @@ func init() {
 	register(&mc.Prop{
 		ID: "C10",
 		Rule: "explicit-state exploration of call histories on one Plenc instance and one target variable: history = (prior target value p0, then 2 (quick: 3 over the reduced value set; thorough: 3 over the full set) Unmarshal calls of encodings v1..vk into the same target, each followed by an Unmarshal of the same bytes into a fresh variable); " +
-			"p0 and vi range over the boundary values of each re-use-sensitive type (slices of structs/pointers/scalars, maps with struct keys (pooled scratch) and pointer/struct values, nested pointers, interned strings, protobuf repeated form), priors additionally with aliased pointers; " +
+			"p0 and vi range over the boundary values of each re-use-sensitive type (slices of structs/pointers/scalars, maps with struct keys (pooled scratch) and pointer/struct values, nested pointers, interned strings, protobuf repeated form), priors additionally with aliased pointers and with slices truncated so that their spare capacity holds stale elements; " +
 			"every history runs under the scheduler shim so that sync.Pool's reuse-vs-fresh answer is an explored environment choice. Oracle: target in ref.Merge(prior, v) after every call; fresh decode == ref.Expect(v) whatever the history. non-trivial = history in which the target held a non-zero value before a decode",
 		Assumptions: []string{"ref.Merge is the weakest reading of the merge rules where the statement is silent (re-decoded map key with a struct value: merged or replaced)",
 			"Marshal on the same instance is part of every history (its output must equal the reference bytes)"},
 		Work: c10Work,
 		Post: func(a *mc.Agg) []string {
-			return needDims(a, "depth:2", "depth:3", "alias-prior", "env-choice-explored", "cfg:default", "cfg:protoarrays")
+			return needDims(a, "depth:2", "depth:3", "alias-prior", "stale-capacity-prior", "env-choice-explored", "cfg:default", "cfg:protoarrays")
 		},
 	})
 }
@@ -74,7 +74,39 @@ func aliasPointers(rv reflect.Value) bool {
 		}
 	case reflect.Struct:
 		for i := 0; i < rv.NumField(); i++ {
-			changed = aliasPointers(rv.Field(i)) || changed
+			if rv.Type().Field(i).IsExported() {
+				changed = aliasPointers(rv.Field(i)) || changed
+			}
+		}
+	}
+	return changed
+}
+
+// truncateSlices re-slices every non-empty slice to length 0 or 1 keeping its capacity, so
+// that the spare capacity holds stale elements (the x = x[:0]; Unmarshal(data, &x) pattern).
+func truncateSlices(rv reflect.Value) bool {
+	changed := false
+	switch rv.Kind() {
+	case reflect.Slice:
+		if rv.Type().Elem().Kind() != reflect.Uint8 && rv.Len() >= 2 {
+			rv.Set(rv.Slice(0, rv.Len()-2))
+			changed = true
+		} else if rv.Type().Elem().Kind() != reflect.Uint8 && rv.Len() == 1 {
+			rv.Set(rv.Slice(0, 0))
+			changed = true
+		}
+		for i := 0; i < rv.Len(); i++ {
+			changed = truncateSlices(rv.Index(i)) || changed
+		}
+	case reflect.Ptr:
+		if !rv.IsNil() {
+			changed = truncateSlices(rv.Elem()) || changed
+		}
+	case reflect.Struct:
+		for i := 0; i < rv.NumField(); i++ {
+			if rv.Type().Field(i).IsExported() {
+				changed = truncateSlices(rv.Field(i)) || changed
+			}
 		}
 	}
 	return changed
@@ -125,9 +157,9 @@ func c10Work(c *mc.Ctx) {
 						c.Note("stopped before " + it.T.String())
 						return
 					}
-					for _, alias := range []bool{false, true} {
-						if !c.Begin(fmt.Sprintf(`{"cfg":%q,"type":%q,"opt":%q,"depth":%d,"prior_index":%d,"prior":%q,"aliased_prior":%v,"values":%d}`,
-							cfg, it.T, it.Opt, pl.depth, pi, ref.Str(it.T, p0), alias, len(pl.vals))) {
+					for alias := 0; alias < 3; alias++ {
+						if !c.Begin(fmt.Sprintf(`{"cfg":%q,"type":%q,"opt":%q,"depth":%d,"prior_index":%d,"prior":%q,"prior_variant":%q,"values":%d}`,
+							cfg, it.T, it.Opt, pl.depth, pi, ref.Str(it.T, p0), []string{"as built", "aliased pointers", "slices truncated keeping stale capacity"}[alias], len(pl.vals))) {
 							continue
 						}
 						c.AddEvals(-1)
@@ -139,7 +171,7 @@ func c10Work(c *mc.Ctx) {
 	}
 }
 
-func c10Histories(c *mc.Ctx, cfg ref.Cfg, it ref.Item, p0 ref.V, alias bool, depth int, vals []ref.V) {
+func c10Histories(c *mc.Ctx, cfg ref.Cfg, it ref.Item, p0 ref.V, alias int, depth int, vals []ref.V) {
 	c.Dim("cfg:" + cfg.String())
 	c.Dim(fmt.Sprintf("depth:%d", depth))
 	pre := fmt.Sprintf("%s|%s|", cfg, it.T)
@@ -160,7 +192,7 @@ func c10Histories(c *mc.Ctx, cfg ref.Cfg, it ref.Item, p0 ref.V, alias bool, dep
 	rec()
 }
 
-func c10Run(c *mc.Ctx, pre string, cfg ref.Cfg, it ref.Item, p0 ref.V, alias bool, hist []ref.V, zero string) {
+func c10Run(c *mc.Ctx, pre string, cfg ref.Cfg, it ref.Item, p0 ref.V, alias int, hist []ref.V, zero string) {
 	t := it.T
 	var viol, detail string
 	fail := func(sig, d string) {
@@ -169,17 +201,24 @@ func c10Run(c *mc.Ctx, pre string, cfg ref.Cfg, it ref.Item, p0 ref.V, alias boo
 		}
 	}
 	var nontrivial bool
-	var aliased, skipped bool
+	var aliased, skipped, truncated bool
 	body := func() {
 		p := NewPlenc(cfg)
 		target := reflect.New(t.Reflect())
 		target.Elem().Set(ref.ToReflect(t, p0))
-		if alias {
+		if alias == 1 {
 			aliased = aliasPointers(target.Elem())
 			if !aliased {
 				skipped = true
 				return // nothing to alias in this prior: identical to the un-aliased history
 			}
+		}
+		if alias == 2 {
+			if !truncateSlices(target.Elem()) {
+				skipped = true
+				return
+			}
+			truncated = true
 		}
 		prior := ref.FromReflect(t, target.Elem())
 		for step, v := range hist {
@@ -273,6 +312,9 @@ func c10Run(c *mc.Ctx, pre string, cfg ref.Cfg, it ref.Item, p0 ref.V, alias boo
 	if aliased {
 		c.Dim("alias-prior")
 	}
+	if truncated {
+		c.Dim("stale-capacity-prior")
+	}
 	hs := make([]string, len(hist))
 	for i, v := range hist {
 		hs[i] = ref.Str(t, v)
@@ -285,7 +327,7 @@ func c10Run(c *mc.Ctx, pre string, cfg ref.Cfg, it ref.Item, p0 ref.V, alias boo
 	}
 	if firstViol != "" {
 		c.Outcome("violation")
-		c.Violation(pre+firstViol, fmt.Sprintf("prior %s (aliased=%v), history %s, env choices %v: %s", ref.Str(t, p0), aliased, strings.Join(hs, " → "), firstSched, firstDetail))
+		c.Violation(pre+firstViol, fmt.Sprintf("prior %s (aliased=%v, truncated-with-stale-capacity=%v), history %s, env choices %v: %s", ref.Str(t, p0), aliased, truncated, strings.Join(hs, " → "), firstSched, firstDetail))
 		return
 	}
 	c.Outcome("ok")
